@@ -719,4 +719,7 @@ def is_consistent(C):
 
     Order as computed by :func:`ro`.
     """
-    return not C3.resolver(C, False, None).had_inconsistency
+    resolver = C3.resolver(C, False, None)
+    # The inconsistency of *C* itself is only discovered while merging.
+    resolver.mro()
+    return not resolver.had_inconsistency
